@@ -155,7 +155,7 @@ def NONE():
 
 
 KNOWN_ENUMS = {"Option": {"None": 0, "Some": 1}, "Result": {"Ok": 0, "Err": 1}, "Entry": {"Occupied": 0, "Vacant": 1},
-               "ControlFlow": {"Continue": 0, "Break": 1}}
+               "ControlFlow": {"Continue": 0, "Break": 1}, "Ordering": {"Less": -1, "Equal": 0, "Greater": 1}}
 
 
 def eq_expr(a, b):
@@ -534,6 +534,9 @@ class Interp:
         m = re.match(r"^((?:\w+::)*[A-Z]\w*)\((.*)\)$", rhs)
         if m:       # tuple struct
             return Val("struct", name=m.group(1), fields=[self.operand(x, fr) for x in split_top(m.group(2))])
+        m = re.match(r"^(?:std::cmp::Ordering::)?(Less|Equal|Greater)$", rhs)
+        if m:
+            return mk_enum("Ordering", m.group(1), KNOWN_ENUMS["Ordering"][m.group(1)], [])
         if re.match(r"^(?:\w+::)*[A-Z]\w*$", rhs):      # unit variant of an enum we do not model (error kinds)
             return OPAQUE("unit_variant:" + rhs)
         m = re.match(r"^((?:\w+::)+)<.*>::([A-Z]\w*)\((.*)\)$", rhs)
@@ -937,6 +940,39 @@ class Interp:
             x, y = a[0], a[1]
             cmpo = "bvule" if op == "min" else "bvuge"
             return self.fold(BV(x.w, "(ite (%s %s %s) %s %s)" % (cmpo, x.s, y.s, x.s, y.s)))
+        # ---- comparisons
+        m = re.search(r"^<(u\d+|usize|i\d+|isize) as Ord>::cmp$", c)
+        if m:
+            x, y = D(a[0]), D(a[1])
+            sg = m.group(1).startswith("i")
+            lt = "(%s %s %s)" % ("bvslt" if sg else "bvult", x.s, y.s)
+            eq = "(= %s %s)" % (x.s, y.s)
+            lt, eq = self.fold(BOOL(lt)).s, self.fold(BOOL(eq)).s
+            k = self.choose([lt, eq, "(and (not %s) (not %s))" % (lt, eq)], "integer comparison")
+            return mk_enum("Ordering", ["Less", "Equal", "Greater"][k], [-1, 0, 1][k], [])
+        if re.search(r"^std::cmp::Ordering::then_with::<", c):
+            o = a[0]
+            if o.idx != 0:
+                return o
+            return self.call_fn(self.closure_fn(a[1]), [a[1]])
+        if re.search(r"^std::cmp::Ordering::(then|reverse)$", c):
+            o = a[0]
+            if c.endswith("reverse"):
+                return mk_enum("Ordering", {-1: "Greater", 0: "Equal", 1: "Less"}[o.idx], -o.idx, [])
+            return a[1] if o.idx == 0 else o
+        if re.search(r"^discriminant::<|^std::mem::discriminant::<", c):
+            v = D(a[0])
+            if v.kind != "enum" or v.idx is None:
+                raise Unsupported("mem::discriminant of %r" % (v,))
+            return BV(64, bv(64, v.idx))
+        if re.search(r"^<Discriminant<.*> as PartialEq>::(eq|ne)$", c):
+            x, y = D(a[0]), D(a[1])
+            e = x.s == y.s
+            return BOOL("true" if e == c.endswith("::eq") else "false")
+        if re.search(r" as Iterator>::zip::<", c):
+            x, y = a[0], a[1]
+            n = min(len(x.items) - x.pos[0], len(y.items) - y.pos[0])
+            return Val("iter", items=[Val("struct", name="(tuple)", fields=[x.items[x.pos[0] + i], y.items[y.pos[0] + i]]) for i in range(n)], pos=[0], sub=None)
         # ---- the `?` operator
         if re.search(r" as Try>::branch$", c):
             v = a[0]
